@@ -124,15 +124,22 @@ def run_session(pcfg, save_config, save_filename, load=False, limit=None, quit_a
 
     pcfg.create_guesses = create
     err = io.StringIO()
+    raised = None
     try:
         with contextlib.redirect_stderr(err), contextlib.redirect_stdout(io.StringIO()) as out:
-            sess.run(load_session=load, limit=limit)
+            try:
+                sess.run(load_session=load, limit=limit)
+            except Exception as ex:          # the code under test raised: the session died (recorded, judged by the caller)
+                raised = repr(ex)
     finally:
         cs.threading = real_threading
         cs.PcfgQueue = real_queue
         pcfg.create_guesses = orig_create
+    if raised:
+        core.PENDING_RAISES.append({'error': raised, 'via': 'CrackingSession.run', 'load': bool(load), 'limit': limit, 'lines_written': len(lines),
+                                    'save_file': os.path.basename(save_filename)})
     return {'lines': lines, 'events': events, 'stderr': err.getvalue(), 'stdout_noise': out.getvalue(),
-            'session': sess, 'quit': ctl.quit, 'popped': popped, 'saves': saves}
+            'session': sess, 'quit': ctl.quit, 'popped': popped, 'saves': saves, 'error': raised}
 
 
 def load_save(save_filename):
